@@ -1,4 +1,387 @@
-import CoclsModel.SuspendPoint
+import CoclsModel.SuspendPointProofs
+/-!
+# C06 — a suspend point never loses or duplicates a ready coroutine
+
+Model: `CoclsModel/SuspendPoint.lean` — `suspend_point` at the level of its real representation (`_count_flag`
+with the heap bit, 3 inline cells, heap block with doubling, a ghost heap with live blocks / allocation events /
+invalid-free events) plus the thread's ready queue.  `handles s i : List Ptr` (what `[begin(), end())` of object
+`i` yields) is the abstraction.
+
+Every theorem quantifies over *all* reachable states: any pool size `n` (any number of suspend points), both
+modes (`a = false`: operations performed by plain code, `a = true`: by a coroutine running under `coro_queue`),
+and *every* operation list — so any number of handles, across the inline→heap transition and every doubling.
+
+Explicit preconditions (totalisation of the model, see the `Res.bad` branches of `step`): a suspend point is not
+merged into itself; the awaiting coroutine's own handle is neither in the awaited suspend point nor already queued.
+-/
 namespace Cocls.SP
-theorem c06_placeholder : True := trivial
+
+/-- every state reachable from `n` empty slots in mode `a` -/
+def Reachable (n : Nat) (a : Bool) (s : State) : Prop := ∃ ops, s = run (init n a) ops
+
+theorem reachable_inv {n : Nat} {a : Bool} {s : State} (h : Reachable n a s) : Inv s := by
+  obtain ⟨ops, rfl⟩ := h
+  exact inv_run (inv_init n a) ops
+
+theorem reachable_step {n : Nat} {a : Bool} {s : State} (h : Reachable n a s) (op : Op) :
+    Reachable n a (step s op).1 := by
+  obtain ⟨ops, rfl⟩ := h
+  exact ⟨ops ++ [op], by simp [run, List.foldl_append]⟩
+
+/-! ## conservation: nothing lost, nothing duplicated -/
+
+/-- **Multiset preserved.** Over any operation sequence on any number of suspend points, every handle handed
+in (`given`: constructors, `<< h`, awaiting coroutines) is, counted with multiplicity, in exactly one place:
+held by some suspend point, waiting in the thread's ready queue, already resumed, or handed back by `pop()`. -/
+theorem c06_multiset_preserved {n : Nat} {a : Bool} {s : State} (h : Reachable n a s) (x : Ptr) :
+    s.given.count x = (held s).count x + s.queue.count x + (resumed s).count x + s.popped.count x :=
+  (reachable_inv h).conserve x
+
+/-- **Never twice.** At no point of any history has a coroutine been resumed (or handed back by `pop`) more
+often than it was handed in; in particular a coroutine handed in once is never resumed twice. -/
+theorem c06_never_twice {n : Nat} {a : Bool} {s : State} (h : Reachable n a s) (x : Ptr) :
+    (resumed s).count x + s.popped.count x ≤ s.given.count x := by
+  have := c06_multiset_preserved h x; omega
+
+/-- **Exactly once at end of life.** After any operation list, once every suspend point of the pool has been
+destroyed (plain destruction, in slot order) and the running coroutine has ended: nothing is held or queued any
+more and every coroutine was resumed (or handed back by `pop`) exactly as often as it was handed in — none
+dropped, none resumed twice. -/
+theorem c06_exactly_once_at_end (n : Nat) (a : Bool) (ops : List Op) (x : Ptr) :
+    let s := run (init n a) (ops ++ endOps n)
+    (resumed s).count x + s.popped.count x = s.given.count x ∧ s.queue = [] ∧ held s = [] := by
+  intro s
+  have I := inv_run (inv_init n a) ops
+  have hl : (run (init n a) ops).objs.length = n := by rw [run_len (inv_init n a)]; simp [init]
+  have E := end_state I
+  rw [hl, ← run_append] at E
+  obtain ⟨IE, hnone, hq⟩ := E
+  have hh : held s = [] := held_nil_of_all_none hnone
+  have c := IE.conserve x
+  refine ⟨?_, hq, hh⟩
+  show (resumed s).count x + s.popped.count x = s.given.count x
+  have c' : s.given.count x = (held s).count x + s.queue.count x + (resumed s).count x + s.popped.count x := c
+  rw [hh, show s.queue = [] from hq] at c'
+  simp only [List.count_nil] at c'; omega
+
+/-! ## the representation is an exact implementation of the list abstraction, operation by operation -/
+
+/-- construction from a handle holds exactly that handle; default / value-only construction holds nothing -/
+theorem c06_construct {n : Nat} {a : Bool} {s : State} (h : Reachable n a s) {i : Nat} (hv : vacant s i = true)
+    (x : Ptr) (v : Nat) :
+    handles (step s (Op.ctor i)).1 i = [] ∧ handles (step s (Op.ctorV i v)).1 i = []
+    ∧ handles (step s (Op.ctorH i x)).1 i = [x] ∧ handles (step s (Op.ctorHV i x v)).1 i = [x] := by
+  have I := reachable_inv h
+  refine ⟨?_, ?_, ?_, ?_⟩ <;> simp only [step, hv, if_true]
+  · have := (ctor_spec I hv {} [] (by simp) rfl (by simp) (by simp)).2.1
+    rw [state_given_nil] at this; exact this
+  · have := (ctor_spec I hv { typed := true, value := v } [] (by simp) rfl (by simp) (by simp)).2.1
+    rw [state_given_nil] at this; exact this
+  · exact (ctor_spec I hv { cf := 2, inl := [x, junk, junk] } [x] (by simp) rfl (by simp) (by simp)).2.1
+  · exact (ctor_spec I hv { cf := 2, inl := [x, junk, junk], typed := true, value := v } [x] (by simp) rfl
+      (by simp) (by simp)).2.1
+
+/-- `sp << h` appends `h`, whatever the current count (inline, inline→heap, heap, heap doubling); no other
+suspend point changes -/
+theorem c06_add {n : Nat} {a : Bool} {s : State} (h : Reachable n a s) {i : Nat} {o : Obj}
+    (hi : s.obj i = some o) (x : Ptr) :
+    handles (step s (Op.addH i x)).1 i = handles s i ++ [x]
+    ∧ ∀ k, k ≠ i → handles (step s (Op.addH i x)).1 k = handles s k := by
+  have A := addH_spec (reachable_inv h) hi x
+  simp only [step, hi]
+  exact ⟨A.2.1, A.2.2.1⟩
+
+/-- `a << std::move(b)` and `a = std::move(b)` (two distinct objects): `a` holds its handles followed by
+`b`'s, `b` is empty, nothing else changes -/
+theorem c06_merge {n : Nat} {a : Bool} {s : State} (h : Reachable n a s) {i j : Nat} {oi oj : Obj}
+    (hi : s.obj i = some oi) (hj : s.obj j = some oj) (hij : i ≠ j) :
+    (handles (step s (Op.merge i j)).1 i = handles s i ++ handles s j
+      ∧ handles (step s (Op.merge i j)).1 j = []
+      ∧ ∀ k, k ≠ i → k ≠ j → handles (step s (Op.merge i j)).1 k = handles s k)
+    ∧ ((step s (Op.assign i j)).2 = Res.unit →
+        handles (step s (Op.assign i j)).1 i = handles s i ++ handles s j
+        ∧ handles (step s (Op.assign i j)).1 j = []
+        ∧ ∀ k, k ≠ i → k ≠ j → handles (step s (Op.assign i j)).1 k = handles s k) := by
+  have M := merge_spec (reachable_inv h) hi hj hij
+  refine ⟨?_, ?_⟩
+  · simp only [step, hi, hj, if_neg hij]; exact ⟨M.2.1, M.2.2.1, M.2.2.2.1⟩
+  · simp only [step, hi, hj, if_neg hij]
+    split
+    · intro hh; cases hh
+    · split
+      · intro _
+        have V := (setValue_spec M.1 i oj.value).2.1
+        exact ⟨by rw [V]; exact M.2.1, by rw [V]; exact M.2.2.1, fun k h1 h2 => by rw [V]; exact M.2.2.2.1 k h1 h2⟩
+      · intro _; exact ⟨M.2.1, M.2.2.1, M.2.2.2.1⟩
+
+/-- move construction (same type, sliced to the base, or into a typed suspend point with a value): the new
+object holds exactly the source's handles in the same order, the moved-from source holds nothing -/
+theorem c06_move {n : Nat} {a : Bool} {s : State} (h : Reachable n a s) {i j : Nat} {oj : Obj}
+    (hv : vacant s i = true) (hj : s.obj j = some oj) (v : Nat) :
+    ∀ op, op = Op.mov i j ∨ op = Op.movBase i j ∨ op = Op.ctorSV i j v →
+      handles (step s op).1 i = handles s j ∧ handles (step s op).1 j = []
+      ∧ ∀ k, k ≠ i → k ≠ j → handles (step s op).1 k = handles s k := by
+  have I := reachable_inv h
+  intro op hop
+  rcases hop with rfl | rfl | rfl <;> simp only [step, hj, hv, if_true]
+  · have M := move_spec I hv hj oj.typed oj.value; exact ⟨M.2.1, M.2.2.1, M.2.2.2.1⟩
+  · have M := move_spec I hv hj false 0; exact ⟨M.2.1, M.2.2.1, M.2.2.2.1⟩
+  · have M := move_spec I hv hj true v; exact ⟨M.2.1, M.2.2.1, M.2.2.2.1⟩
+
+/-- `pop()`: on a non-empty suspend point it returns the *last* handle and removes exactly that one; on an empty
+one it returns `noop_coroutine` and changes nothing -/
+theorem c06_pop {n : Nat} {a : Bool} {s : State} (h : Reachable n a s) {i : Nat} {o : Obj} (hi : s.obj i = some o) :
+    (handles s i = [] → step s (Op.pop i) = (s, Res.handle none))
+    ∧ (handles s i ≠ [] → ∃ x, (step s (Op.pop i)).2 = Res.handle (some x)
+        ∧ handles s i = handles (step s (Op.pop i)).1 i ++ [x]
+        ∧ (step s (Op.pop i)).1.popped = s.popped ++ [x]
+        ∧ ∀ k, k ≠ i → handles (step s (Op.pop i)).1 k = handles s k) := by
+  have I := reachable_inv h
+  by_cases hc : o.cf / 2 = 0
+  · have h0 := handles_of_count_zero hi hc
+    refine ⟨fun _ => by simp only [step, hi, hc, if_true], fun hne => absurd h0 hne⟩
+  · have P := pop_spec I hi hc
+    refine ⟨fun h0 => ?_, fun _ => ⟨popValue s o, ?_⟩⟩
+    · rw [P.2.1] at h0; simp at h0
+    · have e : step s (Op.pop i)
+          = ({ setObj s i (some { o with cf := o.cf - 2 }) with popped := s.popped ++ [popValue s o] },
+             Res.handle (some (popValue s o))) := by
+        simp only [step, hi, hc, if_false]
+      rw [e]
+      exact ⟨rfl, P.2.1, rfl, P.2.2⟩
+
+/-- `clear()` and plain destruction: exactly the handles of the suspend point, each once and in order, are
+resumed (normal mode) or appended to the thread's ready queue (coroutine mode); the suspend point is left empty
+(`clear`) / gone (destructor); no other suspend point changes -/
+theorem c06_consume {n : Nat} {a : Bool} {s : State} (h : Reachable n a s) {i : Nat} {o : Obj}
+    (hi : s.obj i = some o) :
+    (handles (step s (Op.clear i)).1 i = []
+      ∧ (step s (Op.clear i)).1.queue = s.queue ++ (if s.active then handles s i else [])
+      ∧ resumed (step s (Op.clear i)).1 = resumed s ++ (if s.active then [] else handles s i)
+      ∧ ∀ k, k ≠ i → handles (step s (Op.clear i)).1 k = handles s k)
+    ∧ ((step s (Op.dtor i)).1.obj i = none
+      ∧ (step s (Op.dtor i)).1.queue = s.queue ++ (if s.active then handles s i else [])
+      ∧ resumed (step s (Op.dtor i)).1 = resumed s ++ (if s.active then [] else handles s i)
+      ∧ ∀ k, k ≠ i → handles (step s (Op.dtor i)).1 k = handles s k) := by
+  have I := reachable_inv h
+  have S := suspendNow_spec I hi
+  have D := dtor_spec I hi
+  refine ⟨?_, ?_⟩ <;> simp only [step, hi]
+  · exact ⟨S.2.1, S.2.2.2.1, S.2.2.2.2.1, S.2.2.1⟩
+  · exact ⟨D.2.1, D.2.2.2.2.1, D.2.2.2.2.2.1, D.2.2.1⟩
+
+/-- `co_await sp` by coroutine `me` (not itself among the handles, not already queued).  Empty suspend point:
+no suspension, nothing happens.  Otherwise the last handle is resumed first (symmetric transfer), then whatever
+was already queued, then the remaining handles in order, then `me` — each exactly once; the suspend point and
+the queue are left empty.  In normal mode the queue is empty to begin with, so the same formula holds. -/
+theorem c06_await {n : Nat} {a : Bool} {s : State} (h : Reachable n a s) {i : Nat} {o : Obj}
+    (hi : s.obj i = some o) (me : Ptr) (hme : me ∉ handles s i) (hq : me ∉ s.queue) :
+    (handles s i = [] → (step s (Op.await i me)).1 = s)
+    ∧ (handles s i ≠ [] → ∃ rest last, handles s i = rest ++ [last]
+        ∧ resumed (step s (Op.await i me)).1 = resumed s ++ [last] ++ s.queue ++ rest ++ [me]
+        ∧ (step s (Op.await i me)).1.queue = []
+        ∧ handles (step s (Op.await i me)).1 i = []
+        ∧ ∀ k, k ≠ i → handles (step s (Op.await i me)).1 k = handles s k) := by
+  have I := reachable_inv h
+  by_cases hc : o.cf / 2 = 0
+  · have h0 := handles_of_count_zero hi hc
+    exact ⟨fun _ => by simp only [step, hi, awaitObj, hc, if_true], fun hne => absurd h0 hne⟩
+  · refine ⟨fun h0 => ?_, fun _ => ?_⟩
+    · have := (pop_spec I hi hc).2.1; rw [this] at h0; simp at h0
+    · simp only [step, hi, awaitObj, hc, if_false]
+      by_cases ha : s.active = true
+      · simp only [ha, if_true]
+        obtain ⟨-, h1, g1, g2, hqq, hr, -, -, -⟩ := awaitQueue_spec I ha hi hc me
+        have hrest : me ∉ handlesOf s { o with cf := o.cf - 2 } := by
+          intro hm; apply hme; rw [h1]; simp [hm]
+        have hE : awaitExtra s o me = [me] := by simp [awaitExtra, hrest]
+        rw [hE] at hqq
+        generalize hY : resumeAll (awaitQueue s i o me) [popValue s o] = Y at g1 g2 hqq hr
+        have hnot : me ∉ s.queue ++ handlesOf s { o with cf := o.cf - 2 } := by
+          simp only [List.mem_append, not_or]; exact ⟨hq, hrest⟩
+        have hidx : Y.queue.idxOf me + 1 = Y.queue.length := by
+          rw [hqq, ← List.append_assoc, idxOf_append_self _ _ hnot]
+          simp only [List.length_append, List.length_cons, List.length_nil]
+        refine ⟨handlesOf s { o with cf := o.cf - 2 }, popValue s o, h1, ?_, ?_, ?_, ?_⟩
+        · rw [resumed_flushUntil, hidx, List.take_length, hr, hqq]; simp
+        · show Y.queue.drop (Y.queue.idxOf me + 1) = []
+          rw [hidx, List.drop_length]
+        · rw [handles_of_eq (s' := flushUntil Y me) (s := Y) rfl rfl]; exact g1
+        · intro k hk; rw [handles_of_eq (s' := flushUntil Y me) (s := Y) rfl rfl]; exact g2 k hk
+      · have ha' : s.active = false := by simpa using ha
+        simp only [ha', Bool.false_eq_true, if_false]
+        have hi' : ({ s with active := true } : State).obj i = some o := hi
+        obtain ⟨-, h1, g1, g2, hqq, hr, -, -, -⟩ := awaitQueue_spec (inv_active I) rfl hi' hc me
+        have h1' : handles s i = handlesOf s { o with cf := o.cf - 2 } ++ [popValue s o] := h1
+        have hrest : me ∉ handlesOf s { o with cf := o.cf - 2 } := by
+          intro hm; apply hme; rw [h1']; simp [hm]
+        have hE : awaitExtra { s with active := true } o me = [me] := by
+          have : handlesOf { s with active := true } { o with cf := o.cf - 2 } = handlesOf s { o with cf := o.cf - 2 } := rfl
+          simp [awaitExtra, this, hrest]
+        rw [hE] at hqq
+        have hq0 : s.queue = [] := I.idle ha'
+        have hpv : popValue { s with active := true } o = popValue s o := rfl
+        rw [hpv] at g1 g2 hqq hr
+        generalize hY : resumeAll (awaitQueue { s with active := true } i o me) [popValue s o] = Y at g1 g2 hqq hr ⊢
+        refine ⟨handlesOf s { o with cf := o.cf - 2 }, popValue s o, h1', ?_, rfl, ?_, ?_⟩
+        · have e : resumed { flushAll Y with active := false } = resumed Y ++ Y.queue := resumed_flushAll Y
+          rw [e, hr, hqq, hq0]
+          show resumed s ++ [popValue s o] ++ ([] ++ (handlesOf s { o with cf := o.cf - 2 } ++ [me])) = _
+          simp
+        · rw [handles_of_eq (s' := { flushAll Y with active := false }) (s := Y) rfl rfl]; exact g1
+        · intro k hk; rw [handles_of_eq (s' := { flushAll Y with active := false }) (s := Y) rfl rfl]; exact g2 k hk
+
+/-- **A moved-from or emptied suspend point resumes nothing**: whatever consumes an object that holds no handle
+(`clear`, destructor, `co_await`; for `pop` see `c06_pop`) resumes nothing and enqueues nothing -/
+theorem c06_empty_resumes_nothing {n : Nat} {a : Bool} {s : State} (h : Reachable n a s) {i : Nat} {o : Obj}
+    (hi : s.obj i = some o) (h0 : handles s i = []) (me : Ptr) :
+    ∀ op, op = Op.clear i ∨ op = Op.dtor i ∨ op = Op.await i me →
+      resumed (step s op).1 = resumed s ∧ (step s op).1.queue = s.queue := by
+  have I := reachable_inv h
+  have C := c06_consume h hi
+  have hc : o.cf / 2 = 0 := by
+    by_cases hc : o.cf / 2 = 0
+    · exact hc
+    · have := (pop_spec I hi hc).2.1; rw [this] at h0; simp at h0
+  intro op hop
+  rcases hop with rfl | rfl | rfl
+  · exact ⟨by rw [C.1.2.2.1, h0]; simp, by rw [C.1.2.1, h0]; simp⟩
+  · exact ⟨by rw [C.2.2.2.1, h0]; simp, by rw [C.2.2.1, h0]; simp⟩
+  · have e : (step s (Op.await i me)).1 = s := by simp only [step, hi, awaitObj, hc, if_true]
+    rw [e]; exact ⟨rfl, rfl⟩
+
+/-! ## heap: balanced, no double free, no leak, no out-of-bounds access -/
+
+/-- **Heap balance.** In every reachable state: no `delete[]` ever hit an address that was not a live block
+(no double free after move / merge, no invalid free), no write ever went outside a live block, and the number
+of `new[]` equals the number of `delete[]` plus the number of blocks still live. -/
+theorem c06_heap_balanced {n : Nat} {a : Bool} {s : State} (h : Reachable n a s) :
+    Ev.badfree ∉ s.trace ∧ Ev.oob ∉ s.trace ∧ news s = deletes s + s.live.length :=
+  ⟨(reachable_inv h).heap.no_badfree, (reachable_inv h).heap.no_oob, (reachable_inv h).heap.balance⟩
+
+/-- every live block is owned by exactly one suspend point (which has its heap bit set and points to it): a
+block can never be freed twice through two owners, and a block without owner — a leak — does not exist -/
+theorem c06_block_ownership {n : Nat} {a : Bool} {s : State} (h : Reachable n a s) :
+    (∀ b, b ∈ s.live → ∃ i o, s.obj i = some o ∧ o.cf % 2 = 1 ∧ o.ext = b)
+    ∧ (∀ i j oi oj, s.obj i = some oi → s.obj j = some oj → oi.cf % 2 = 1 → oj.cf % 2 = 1 → oi.ext = oj.ext → i = j) := by
+  have I := reachable_inv h
+  refine ⟨?_, I.own.excl⟩
+  intro b hb
+  have := (I.heap.live_iff b).1 hb
+  cases hg : s.mem.get b with
+  | none => rw [hg] at this; cases this
+  | some c => exact I.own.owned b c hg
+
+/-- **No leak.** When no suspend point uses heap storage (in particular when all have been destroyed) no block
+is live and every `new[]` was matched by exactly one `delete[]`; this is the case at the end of every history
+(`ops ++ endOps n`), however far the counts outgrew the inline capacity in between. -/
+theorem c06_no_leak {n : Nat} {a : Bool} {s : State} (h : Reachable n a s)
+    (hnone : ∀ i o, s.obj i = some o → o.cf % 2 = 0) : s.live = [] ∧ news s = deletes s := by
+  have hl : s.live = [] := by
+    apply List.eq_nil_iff_forall_not_mem.2
+    intro b hb
+    obtain ⟨i, o, ho, hf, -⟩ := (c06_block_ownership h).1 b hb
+    have := hnone i o ho; omega
+  have := (c06_heap_balanced h).2.2
+  rw [hl] at this
+  exact ⟨hl, by simpa using this⟩
+
+theorem c06_no_leak_at_end (n : Nat) (a : Bool) (ops : List Op) :
+    let s := run (init n a) (ops ++ endOps n)
+    s.live = [] ∧ news s = deletes s ∧ Ev.badfree ∉ s.trace ∧ Ev.oob ∉ s.trace := by
+  intro s
+  have hr : Reachable n a s := ⟨ops ++ endOps n, rfl⟩
+  have I := inv_run (inv_init n a) ops
+  have hl : (run (init n a) ops).objs.length = n := by rw [run_len (inv_init n a)]; simp [init]
+  have E := end_state I
+  rw [hl, ← run_append] at E
+  have L := c06_no_leak hr (fun i o ho => by rw [E.2.1 i] at ho; cases ho)
+  exact ⟨L.1, L.2, (c06_heap_balanced hr).1, (c06_heap_balanced hr).2.1⟩
+
+/-- the count never exceeds the storage in use: at most 3 inline, at most the capacity of the (live) block on
+the heap — so every read of `[begin(), end())` and of `from[idx-1]` is in bounds -/
+theorem c06_count_within_storage {n : Nat} {a : Bool} {s : State} (h : Reachable n a s) {i : Nat} {o : Obj}
+    (hi : s.obj i = some o) :
+    (o.cf % 2 = 0 → o.cf / 2 ≤ inlineCount ∧ o.inl.length = inlineCount)
+    ∧ (o.cf % 2 = 1 → ∃ c, s.mem.get o.ext = some c ∧ c.length = o.cap ∧ o.cf / 2 ≤ o.cap ∧ o.ext ∈ s.live) := by
+  have I := reachable_inv h
+  have w := I.own.wf i o hi
+  refine ⟨fun hf => ⟨w.inl_le hf, w.inl_len⟩, fun hf => ?_⟩
+  obtain ⟨c, hg, hl, hle, -⟩ := w.ext_ok hf
+  exact ⟨c, hg, hl, hle, (I.heap.live_iff o.ext).2 (by simp [hg])⟩
+
+/-- **No allocation within the inline capacity**: adding / merging handles into a suspend point that uses inline
+storage, as long as the resulting count does not exceed 3, touches neither the heap nor the event trace
+(`new[]` only ever happens in `add`, and only when the count outgrows the storage) -/
+theorem c06_inline_no_alloc {s : State} {i : Nat} {o : Obj} (hi : s.obj i = some o) (hf : o.cf % 2 = 0)
+    (hs : List Ptr) (hc : o.cf / 2 + hs.length ≤ inlineCount) :
+    (addAll s i hs).trace = s.trace ∧ (addAll s i hs).mem = s.mem ∧ (addAll s i hs).live = s.live :=
+  ⟨(addAll_inline hi hf hs hc).1, (addAll_inline hi hf hs hc).2.1, (addAll_inline hi hf hs hc).2.2.1⟩
+
+/-! ## the attached value -/
+
+/-- a typed suspend point is constructed with the value its producer supplied -/
+theorem c06_value_constructed {n : Nat} {a : Bool} {s : State} (_h : Reachable n a s) {i : Nat}
+    (hv : vacant s i = true) (x : Ptr) (v : Nat) :
+    (∃ o, (step s (Op.ctorV i v)).1.obj i = some o ∧ o.typed = true ∧ o.value = v)
+    ∧ (∃ o, (step s (Op.ctorHV i x v)).1.obj i = some o ∧ o.typed = true ∧ o.value = v)
+    ∧ (∀ j oj, s.obj j = some oj →
+        (∃ o, (step s (Op.ctorSV i j v)).1.obj i = some o ∧ o.typed = true ∧ o.value = v)
+        ∧ (∃ o, (step s (Op.mov i j)).1.obj i = some o ∧ o.typed = oj.typed ∧ o.value = oj.value)) := by
+  obtain ⟨hil, hin⟩ := vacant_iff.1 hv
+  refine ⟨?_, ?_, ?_⟩
+  · simp only [step, hv, if_true]
+    exact ⟨{ typed := true, value := v }, by rw [obj_setObj _ i _ i hil]; simp, rfl, rfl⟩
+  · simp only [step, hv, if_true]
+    exact ⟨{ cf := 2, inl := [x, junk, junk], typed := true, value := v },
+      by rw [obj_setObj _ i _ i (by exact hil)]; simp, rfl, rfl⟩
+  · intro j oj hj
+    have hij : i ≠ j := by intro e; subst e; rw [hin] at hj; cases hj
+    have hjl := obj_lt hj
+    have key : ∀ t w, (stepMove s i j t w oj).obj i = some (moveFrom oj t w) := by
+      intro t w
+      simp only [stepMove]
+      rw [obj_setObj _ j _ i (by simpa using hjl), obj_setObj _ i _ i hil]; simp [hij]
+    have tv : ∀ t w, (moveFrom oj t w).typed = t ∧ (moveFrom oj t w).value = w := by
+      intro t w; unfold moveFrom; split <;> exact ⟨rfl, rfl⟩
+    refine ⟨?_, ?_⟩ <;> simp only [step, hj, hv, if_true]
+    · exact ⟨_, key true v, (tv true v).1, (tv true v).2⟩
+    · exact ⟨_, key _ _, (tv _ _).1, (tv _ _).2⟩
+
+/-- **The value is the one its producer supplied**: no operation changes the type or the value of an existing
+suspend point — adding, merging into it or out of it, moving out of it, pop, clear, co_await, growing to the heap —
+with the single exception of move-assignment between two typed suspend points, which (being the implicit
+member-wise move assignment) stores the source's value -/
+theorem c06_value {n : Nat} {a : Bool} {s : State} (h : Reachable n a s) (op : Op) {k : Nat} {o o' : Obj}
+    (hk : s.obj k = some o) (hk' : (step s op).1.obj k = some o') :
+    o'.typed = o.typed ∧
+    (o'.value = o.value ∨ ∃ j oj, op = Op.assign k j ∧ s.obj j = some oj ∧ oj.typed = true ∧ o'.value = oj.value) := by
+  rcases step_value_frame (reachable_inv h) op with V | ⟨i, j, oi, oj, rfl, hi, hj, hti, htj, hothers, oi', e1, e2, e3⟩
+  · have := V k o o' hk hk'; exact ⟨this.1, Or.inl this.2⟩
+  · by_cases ek : k = i
+    · subst ek
+      rw [hi] at hk; cases hk
+      rw [e1] at hk'; cases hk'
+      exact ⟨by rw [e2, hti], Or.inr ⟨j, oj, rfl, hj, htj, e3⟩⟩
+    · have := hothers k ek o o' hk hk'; exact ⟨this.1, Or.inl this.2⟩
+
+/-! ## non-vacuity: the hypotheses are satisfiable by non-trivial reachable states -/
+
+/-- 7 handles added to one suspend point: inline → heap (6) → doubling (12) -/
+def demoGrow : List Op := [Op.ctor 0, Op.addH 0 10, Op.addH 0 11, Op.addH 0 12, Op.addH 0 13, Op.addH 0 14,
+  Op.addH 0 15, Op.addH 0 16]
+
+example : Reachable 2 false (run (init 2 false) demoGrow) := ⟨_, rfl⟩
+example : handles (run (init 2 false) demoGrow) 0 = [10, 11, 12, 13, 14, 15, 16] := by decide
+example : (run (init 2 false) demoGrow).trace = [Ev.alloc 6, Ev.alloc 12, Ev.free 6] := by decide
+example : ((run (init 2 false) demoGrow).obj 0).map (·.cf) = some 15 := by decide   -- count 7, heap bit set
+/-- merging a heap-backed suspend point into an inline one, then destroying both in normal mode: every handle
+resumed once, in order, all blocks freed -/
+example : resumed (run (init 2 false) (demoGrow ++ [Op.ctorH 1 9, Op.merge 1 0] ++ endOps 2))
+    = [9, 10, 11, 12, 13, 14, 15, 16] := by decide
+example : (run (init 2 false) (demoGrow ++ [Op.ctorH 1 9, Op.merge 1 0] ++ endOps 2)).live = [] := by decide
+/-- coroutine mode: a discarded suspend point only enqueues; `co_await` runs its last handle first -/
+example : resumed (run (init 2 true) [Op.ctorH 0 1, Op.addH 0 2, Op.clear 0, Op.ctorH 1 3, Op.addH 1 4, Op.addH 1 5,
+    Op.await 1 99]) = [5, 1, 2, 3, 4, 99] := by decide
+
 end Cocls.SP
